@@ -20,7 +20,7 @@ ASSUMPTIONS = ['shift invariance is judged on matrices whose entries are all sto
                'no stored logit is exactly 0.0', 'tolerance 1e-9 (float64)']
 N = {'quick': 3000, 'thorough': 100000}
 CLASSES = ['dense', 'dense_peaky', 'sparse_floor', 'onehot', 'transformer', 'bag', 'bag_lm', 'bag_extreme', 'threshold', 'alto_wc', 'tiny_logits', 'alto_word_onehot', 'parser_update', 'long_line', 'window_equals_text', 'merged_confidences', 'alto_uncertain_word']
-REQUIRED = ['bags_with_an_lm_score_of_exactly_zero', 'lines_without_frames_checked', 'factory_built_page_decoder_thresholds', 'second_exports_after_new_logits', 'pages_with_two_character_tables', 'uncertain_words_checked', 'merged_line_confidences_checked', 'page_decoder_thresholds_checked', 'window_equals_text_lines', 'lines_over_1000_frames', 'word_onehot_lines', 'parser_updates', 'tiny_logit_lines', 'repeated_calls_checked', 'bag_history_steps', 'repo_tests_under_contracts', 'line_conf_checked', 'shift_checked', 'onehot_checked', 'letter_conf_checked', 'page_conf_checked', 'bag_checked', 'monotone_checked', 'wc_checked',
+REQUIRED = ['lines_with_explicitly_stored_zeros', 'bags_with_an_lm_score_of_exactly_zero', 'lines_without_frames_checked', 'factory_built_page_decoder_thresholds', 'second_exports_after_new_logits', 'pages_with_two_character_tables', 'uncertain_words_checked', 'merged_line_confidences_checked', 'page_decoder_thresholds_checked', 'window_equals_text_lines', 'lines_over_1000_frames', 'word_onehot_lines', 'parser_updates', 'tiny_logit_lines', 'repeated_calls_checked', 'bag_history_steps', 'repo_tests_under_contracts', 'line_conf_checked', 'shift_checked', 'onehot_checked', 'letter_conf_checked', 'page_conf_checked', 'bag_checked', 'monotone_checked', 'wc_checked',
             'contract:get_line_confidence in [0,1], one per label', 'contract:posteriors <= 0 and sum to 1', 'contract:compute_line_confidence in [0,1]']
 TOL = 1e-9
 
@@ -195,6 +195,14 @@ def check(case, mon, ctx):
     if cls == 'alto_wc':
         return check_alto(case, mon, ctx)
     stored = sparse.csc_matrix(lg) if cls != 'sparse_floor' else genlib.sparsify(lg, 1e-2)
+    if cls in ('onehot', 'sparse_floor') and lg.shape[0] % 2 == 0:
+        # (round 8) the same matrix with its pruned entries stored explicitly as 0.0 (pruned after the matrix was built, or assembled cell by cell): such zeros are
+        # pruned entries like any other
+        dense_ = np.asarray(stored.todense())
+        rr_, cc_ = np.meshgrid(np.arange(dense_.shape[0]), np.arange(dense_.shape[1]), indexing='ij')
+        stored = sparse.csc_matrix((dense_.ravel(), (rr_.ravel(), cc_.ravel())), shape=dense_.shape)
+        if stored.nnz == dense_.size and (stored.data == 0).any():
+            mon.count('lines_with_explicitly_stored_zeros')
     if cls == 'tiny_logits':
         mon.count('tiny_logit_lines')
     line = ctx.layout.TextLine(logits=stored)
